@@ -74,6 +74,12 @@ def run(ck):
         seqs.append(("doc", gdoc.sentence(rng, "SourceFile", budget=rng.choice([4, 6, 8, 10]), cover=cover)))
     for _ in range(300 if quick else 6000):
         seqs.append(("all", g_all.sentence(rng, "SourceFile", budget=rng.choice([4, 6, 8, 10]))))
+    # every `X+` of the documented grammar expanded zero times (the lower bound of a repetition)
+    for pp in gdoc.plus_paths():
+        for _ in range(6 if quick else 60):
+            z = gdoc.sentence_without(rng, pp, budget=rng.choice([4, 6, 8]))
+            if z is not None:
+                seqs.append(("zero-plus", z))
     base = [s for _, s in seqs if 2 <= len(s) <= 14]
     rng.shuffle(base)
     vocab = sorted({k for _, s in seqs for k in s})
@@ -159,6 +165,12 @@ def run(ck):
             else:
                 ck.fail(["C04", "nonsentence-accepted", shape(ks)], "a token sequence that is not derivable from the documented grammar (trailing separators allowed) "
                         "parses with zero errors and no listed deviation explains it: %s" % text[:100], case, "zero errors", "at least one syntax error")
+    # a listed deviation must show on its own witness; one that does not is stale and must not be used to explain anything
+    stale = [d[0] for d in docgrammar.DEVIATIONS if not any(k[1] == d[0] for k in found)]
+    if stale:
+        ck.notes.append("listed deviations whose witness no longer shows them (not used as explanations): %s" % stale)
+        for kind_name in [k for k in found if k[1] in stale]:
+            del found[kind_name]
     desc = {d[0]: d[3] for d in docgrammar.DEVIATIONS}
     for (kind, name), (text, case, r) in sorted(found.items()):
         ck.fail(["C04", kind, name], "%s [%s]; e.g. %s" % (desc[name], "documented sentence rejected" if kind == "sentence-rejected" else "undocumented input accepted without error",
